@@ -208,6 +208,24 @@ def check_master(case, ctx):
             raw = b58.decode_check(s)
             if raw[4] != 0 or raw[5:9] != b"\x00" * 4 or raw[9:13] != b"\x00" * 4:
                 raise Violation("C07/master/metadata", "master key serialised with depth/fingerprint/index %s" % raw[4:13].hex())
+        # wallet-level export of account nodes of both SLIP-44 coin types: network of the prefix = the wallet's, flavour = purpose
+        st_, w = call(BaseWallet, master=m, testnet=testnet)
+        if st_ == "ok":
+            for purpose in (44, 49, 84):
+                for coin in (0, 1):
+                    path = [H + purpose, H + coin, H + (seed[0] & 3)]
+                    try:
+                        rn = R.derive(ref, path)
+                    except R.Invalid:
+                        continue
+                    node = m.derive_path(list(path))
+                    for kind, f, render in (("pub", w.node_extended_public_key, rn.xpub), ("prv", w.node_extended_private_key, rn.xprv)):
+                        want = render(R.VERSION_OF[(kind, testnet, purpose)])
+                        st_, s = call(f, node)
+                        if st_ == "exc" or s != want:
+                            raise Violation("C07/wallet-export/version", "%snet wallet, node %s: node_extended_%s_key = %r, expected %s"
+                                            % ("test" if testnet else "main", R.fmt_path(path), "public" if kind == "pub" else "private", s, want))
+            ctx.count("wallet-export-both-coin-types")
 
 
 # ------------------------------------------------------------------------------------ version table
